@@ -443,6 +443,47 @@ def suite_echelon(g, n, big=False):
             r, c = rng.randint(1, 3), rng.randint(22000, 40000)
         rows = profile_matrix(g, r, c)
         full = rng.randint(0, 1)
+        x = rng.random()
+        if x < 0.10:
+            # M4RI tail blocks: the last block of columns holds kbar pivots for EVERY kbar in 1..6k (uneven splits of the
+            # kbar bits over the six tables), full column rank, rows left to clear above and below
+            k = rng.randint(1, 10)
+            kbar = rng.randint(1, 6 * k)
+            c = 6 * k * rng.randint(0, 2) + kbar
+            r = c + rng.randint(1, 60)
+            rows = g.rows_random(r, c)
+            if rng.random() < 0.3 and c > kbar + 3:
+                # ... or a pivot gap right after kbar pivots of a block: one column repeats an earlier one
+                j = rng.randint(1, c - 1)
+                i0 = rng.randrange(j)
+                rows = [(v & ~(1 << j)) | (((v >> i0) & 1) << j) for v in rows]
+            op = rng.choice(['echelonize_m4ri_exact', 'echelonize_m4ri_exact', 'echelonize_m4ri', 'top_echelonize_exact'])
+            if op == 'top_echelonize_exact':
+                g.add(op, '%s %d' % (g.mat(r, c, py_echelon(rows, r, c)), k), r=r, c=c)
+            else:
+                g.add(op, '%s %d %d' % (g.mat(r, c, rows), full, k), r=r, c=c, full=full)
+            continue
+        if big and x < 0.14:
+            # density-switching hybrid, switch in mid-course: [I_a | sparse ; 0 | dense of low rank]
+            a = rng.randint(257, 330)
+            rb = rng.randint(30, 150)
+            cb = rng.randint(120, 400)
+            r, c = a + rb, a + cb
+            rk = rng.randint(5, min(rb, cb))
+            basis = g.rows_random(rk, cb)
+            D = []
+            for _i in range(rb):
+                v = 0
+                sel = rng.getrandbits(rk)
+                for t in range(rk):
+                    if (sel >> t) & 1:
+                        v ^= basis[t]
+                D.append(v)
+            top = [(1 << i) | ((rng.getrandbits(cb) & rng.getrandbits(cb) & rng.getrandbits(cb) & rng.getrandbits(cb) & rng.getrandbits(cb)) << a) for i in range(a)]
+            rows = top + [d << a for d in D]
+            thr = rng.choice([2, 5, 10, 15])
+            g.add('echelonize_m4ri_h', '%s %d %d %d' % (g.mat(r, c, rows), rng.choice([1, 1, 1, 0]), rng.randint(0, 8), thr), r=r, c=c, full=1)
+            continue
         if op == 'gauss_delayed':
             sc = rng.choice([0, 0, rng.randint(0, min(r, c))])
             g.add(op, '%s %d %d' % (g.mat(r, c, rows), sc, full), r=r, c=c)
@@ -930,3 +971,22 @@ def alloc_blockwise(g, nb, cm, th, nseq):
             rng.shuffle(live)
             ops += ['f.%d' % h for h in live] + ['c']
         alloc_line(g, nb, cm, th, ops)
+
+
+def suite_tables(g, n):
+    """Gray-code table + single-table row processing called directly (long rows: the unrolled word loops and their tails)"""
+    rng = g.rng
+    for _ in range(n):
+        c = wdim(g, 1, 300)
+        if rng.random() < 0.45:
+            c = rng.choice([rng.randint(513, 1700), 64 * rng.randint(9, 27), 64 * rng.randint(9, 27) + rng.choice([1, 37, 63])])
+        k = rng.randint(1, min(8, c))
+        sc = rng.choice([0, rng.randint(0, c - k), max(0, c - k), (rng.randint(0, c - k) // 64) * 64])
+        r = rng.randint(1, 12)
+        sr = rng.randint(0, r)
+        er = rng.randint(sr, r)
+        rs = rng.randint(k, k + 5)
+        r0 = rng.randint(0, rs - k)
+        M = g.mat(r, c, kind=rng.choice(['dense', 'dense', 'sparse']))
+        S = g.mat(rs, c, kind=rng.choice(['dense', 'dense', 'sparse', 'single']))
+        g.add('process_rows', '%s %d %d %d %d %s %d' % (M, sr, er, sc, k, S, r0), c=c, k=k)
